@@ -110,7 +110,15 @@ HKinds == {"msg", "rmsg", "rhs", "amc", "ucc", "spoof", "banned", "badbody"} \cu
 \*   killc / killd: whether CloseCircuit / DisableSimulator makes the proxy regard the circuit as no longer open
 \*   ucc : whether a UseCircuitCode naming a pending session claims it although the addressed
 \*         far host is no registered region of that session (no circuit can be opened then)
-Ev(n, a, h, k, s, ch) == [n |-> n, a |-> a, h |-> h, k |-> k, s |-> s, ch |-> ch]
+\* ft: a send fault of the environment.  The operating system refuses the ONE datagram this event makes
+\* the proxy hand to its transport (message too long for a UDP payload once the SOCKS header is on,
+\* unreachable network, ...); that datagram is lost.  "err": the transport reports it the way asyncio does,
+\* by calling the protocol's error_received(OSError) from inside sendto(); "raise": sendto() raises.
+\* The event is otherwise EXACTLY the event without the fault -- same hand-over to the transport, same
+\* state change -- and nothing about any other datagram, circuit, session or association changes
+\* (the actions below never look at ft; all laws apply to faulted events unchanged).
+Faults == {"none", "err", "raise"}
+Ev(n, a, h, k, s, ch, ft) == [n |-> n, a |-> a, h |-> h, k |-> k, s |-> s, ch |-> ch, ft |-> ft]
 
 Init == /\ ctl = [a \in Assoc |-> IF Tcp THEN "none" ELSE "open"]
         /\ st = [s \in Sess |-> "absent"]
@@ -118,7 +126,7 @@ Init == /\ ctl = [a \in Assoc |-> IF Tcp THEN "none" ELSE "open"]
         /\ sess = [a \in Assoc |-> NoSess]
         /\ circ = [s \in Sess |-> [h \in Sims |-> "none"]]
         /\ hnd = [s \in Sess |-> [h \in Sims |-> 0]]
-        /\ ev = Ev("Init", 0, 0, "", 0, FALSE)
+        /\ ev = Ev("Init", 0, 0, "", 0, FALSE, "none")
         /\ out = NoOut
 
 (* environment: the login HTTP response was intercepted / a region was announced (EnableSimulator, *)
@@ -127,7 +135,7 @@ Login(s) == /\ st[s] = "absent"
             /\ st' = [st EXCEPT ![s] = "pending"]
             /\ regs' = [regs EXCEPT ![s] = {LoginSim(s)}]
             /\ hnd' = [hnd EXCEPT ![s][LoginSim(s)] = LoginHandle(s)]
-            /\ ev' = Ev("Login", 0, 0, "", s, FALSE) /\ out' = NoOut
+            /\ ev' = Ev("Login", 0, 0, "", s, FALSE, "none") /\ out' = NoOut
             /\ UNCHANGED <<ctl, sess, circ>>
 (* the viewer of association a opens its SOCKS control connection and asks for a UDP association;   *)
 (* later that connection ends (EOF / reset).  The association, and the session it holds, belong to  *)
@@ -135,7 +143,7 @@ Login(s) == /\ st[s] = "absent"
 (* session and circuits are exactly what they were (CloseRule, OpenStaysDeliverable).               *)
 Associate(a) == /\ Tcp /\ ctl[a] = "none"
                 /\ ctl' = [ctl EXCEPT ![a] = "open"]
-                /\ ev' = Ev("Assoc", a, 0, "", 0, FALSE) /\ out' = NoOut
+                /\ ev' = Ev("Assoc", a, 0, "", 0, FALSE, "none") /\ out' = NoOut
                 /\ UNCHANGED <<st, regs, sess, circ, hnd>>
 CloseControl(a) ==
     /\ Tcp /\ ctl[a] = "open"
@@ -147,7 +155,7 @@ CloseControl(a) ==
               /\ regs' = [regs EXCEPT ![s] = {}]
               /\ circ' = [circ EXCEPT ![s] = [h \in Sims |-> "none"]]
               /\ hnd' = [hnd EXCEPT ![s] = [h \in Sims |-> 0]]
-    /\ ev' = Ev("Close", a, 0, "", 0, FALSE) /\ out' = NoOut
+    /\ ev' = Ev("Close", a, 0, "", 0, FALSE, "none") /\ out' = NoOut
 \* Region handle g (0: none) is announced at simulator address h.  Routing is by address: h becomes
 \* (or stays) a registered region and NOTHING else changes -- whether g is new, is h's handle already,
 \* or is the handle of a region registered at ANOTHER address (the region "moved") whose circuit may be
@@ -164,7 +172,7 @@ Announce(s, g, h, ch) ==
           /\ circ' = [circ EXCEPT ![s] = [x \in Sims |-> IF x \in old THEN "none" ELSE @[x]]]
           /\ hnd' = [hnd EXCEPT ![s] = [x \in Sims |-> IF x = h THEN (IF g = 0 THEN @[x] ELSE g)
                                                       ELSE IF x \in old THEN 0 ELSE @[x]]]
-    /\ ev' = Ev("Reg", g, h, "", s, ch) /\ out' = NoOut
+    /\ ev' = Ev("Reg", g, h, "", s, ch, "none") /\ out' = NoOut
     /\ UNCHANGED <<ctl, st, sess>>
 
 Discard == out' = NoOut /\ UNCHANGED <<pvars, hnd>>
@@ -197,29 +205,37 @@ UseCircuit(a, h, s, ch) ==
                ELSE /\ UNCHANGED circ /\ out' = NoOut
 
 \* a datagram from the viewer of association a, SOCKS-addressed to far host h
-Client(a, h, k, s, ch) ==
+\* A UseCircuitCode on an association that already holds a session is an ordinary message whatever
+\* session it names -- its own (a resend), another live one, a pending login's, an unknown one: it opens
+\* (or re-opens) the circuit to h in the HELD session if h is a region of it and is forwarded; it claims
+\* nothing and ends nothing (what the pinned code does also for a pending login's ID: that login stays
+\* pending, to be claimed by the association that has no session yet).
+Client(a, h, k, s, ch, ft) ==
     /\ ctl[a] = "open"                                  \* a closed socket receives nothing
-    /\ ev' = Ev("C", a, h, k, s, ch)
-    /\ k = "ucc" => (sess[a] # NoSess => s = sess[a])   \* a viewer names its own session
+    /\ ev' = Ev("C", a, h, k, s, ch, ft)
+    /\ ft # "none" => k \in {"msg", "ucc"}
     /\ k # "ucc" => s = NoSess
     /\ ch => \/ (k \in Kill /\ IsOpen(a, h))
              \/ (k = "ucc" /\ CanClaim(a, s) /\ h \notin regs[s])
     /\ IF k \in SocksBad \cup LludpBad \cup {"dom"} THEN Discard
        ELSE IF k = "ucc" THEN UseCircuit(a, h, s, ch)
        ELSE OnCircuit(a, h, k, "C", ch)
+    /\ ft # "none" => out'.sends # <<>>                  \* only a datagram that is sent can be refused
 
 \* a datagram from far host h arriving at the socket of association a.
 \* "ucc": a UseCircuitCode naming session s coming FROM a far host is an ordinary message, it
 \* claims nothing.  "spoof": a stranger (not on the viewer's IP) sends what a viewer would send,
 \* a well-formed SOCKS5 UDP request for a simulator carrying a valid message.
-Host(a, h, k, s, ch) ==
+Host(a, h, k, s, ch, ft) ==
     /\ ctl[a] = "open"
-    /\ ev' = Ev("H", a, h, k, s, ch)
+    /\ ev' = Ev("H", a, h, k, s, ch, ft)
+    /\ ft # "none" => k \in {"msg", "ucc"}
     /\ k # "ucc" => s = NoSess
     /\ k = "spoof" => h = Unk
     /\ ch => (k \in Kill /\ IsOpen(a, h))
     /\ IF k \in LludpBad \cup {"banned", "spoof"} THEN Discard
        ELSE OnCircuit(a, h, k, "H", ch)
+    /\ ft # "none" => out'.sends # <<>>
 
 Far == Sims \cup {Unk}
 \* a viewer can also mis-address a datagram to a viewer's own address (0 - b: viewer of association b)
@@ -227,10 +243,10 @@ CFar == Far \cup {0 - b : b \in Assoc}
 Next == \/ \E s \in Sess : Login(s)
         \/ \E a \in Assoc : Associate(a) \/ CloseControl(a)
         \/ \E s \in Sess, h \in Sims, ch \in BOOLEAN : \E g \in AnnHandles(h) : Announce(s, g, h, ch)
-        \/ \E a \in Assoc, h \in CFar, k \in CKinds \ {"ucc"}, ch \in BOOLEAN : Client(a, h, k, NoSess, ch)
-        \/ \E a \in Assoc, h \in CFar, s \in Sess \cup {NoSess}, ch \in BOOLEAN : Client(a, h, "ucc", s, ch)
-        \/ \E a \in Assoc, h \in Far, k \in HKinds \ {"ucc"}, ch \in BOOLEAN : Host(a, h, k, NoSess, ch)
-        \/ \E a \in Assoc, h \in Far, s \in Sess \cup {NoSess} : Host(a, h, "ucc", s, FALSE)
+        \/ \E a \in Assoc, h \in CFar, k \in CKinds \ {"ucc"}, ch \in BOOLEAN, ft \in Faults : Client(a, h, k, NoSess, ch, ft)
+        \/ \E a \in Assoc, h \in CFar, s \in Sess \cup {NoSess}, ch \in BOOLEAN, ft \in Faults : Client(a, h, "ucc", s, ch, ft)
+        \/ \E a \in Assoc, h \in Far, k \in HKinds \ {"ucc"}, ch \in BOOLEAN, ft \in Faults : Host(a, h, k, NoSess, ch, ft)
+        \/ \E a \in Assoc, h \in Far, s \in Sess \cup {NoSess}, ft \in Faults : Host(a, h, "ucc", s, FALSE, ft)
 Spec == Init /\ [][Next]_vars
 
 (****************************** the property *******************************)
@@ -296,6 +312,9 @@ Exempt(a, h) == \/ (ev'.n \in {"C", "H"} /\ ev'.k \in Kill /\ ev'.ch /\ ev'.a = 
                 \/ (ev'.n = "Reg" /\ ev'.ch /\ sess[a] = ev'.s /\ h # ev'.h /\ hnd[ev'.s][h] = ev'.a)
                 \/ (ev'.n = "Close" /\ ev'.a = a)
 OpenStaysDeliverable == [][\A a \in Assoc, h \in Sims : (IsOpen(a, h) /\ ~Exempt(a, h)) => IsOpen(a, h)']_vars
+\* a refused send concerns one datagram that WAS handed to the transport, and nobody's association
+SendFaultRule == [][ev'.ft # "none" => (Len(out'.sends) = 1 /\ ctl' = ctl
+                                          /\ \A b \in Assoc : sess[b] # NoSess => sess'[b] = sess[b])]_vars
 \* the end of one viewer's control connection ends that viewer's association and session, nobody else's
 CloseRule == [][ev'.n = "Close" =>
                   /\ ctl'[ev'.a] = "closed" /\ sess'[ev'.a] = NoSess /\ out' = NoOut
